@@ -431,13 +431,19 @@ def symbolic_comprehension(eng, n, fr, kind, first):
         p.cols = [z3.Lambda([i], to_z3(x, k)) for x, k in zip(vv, kinds)]
     else:
         k = kind_of(vv)
+        proto = None
         if vv is None:
             k = "oref"
+        from .values import Opaque as _Op
+        if isinstance(vv, _Op):
+            k, proto, vv = "ref", vv.proto, Sym(vv.z, "ref")
         if k is None:
             raise Unsupported(f"comprehension element of type {type(vv).__name__} over a symbolic sequence")
         p = PList()
         p.items, p.kinds, p.tup, p.n = None, [k], False, z3.simplify(nz)
         p.cols = [z3.Lambda([i], to_z3(vv, k))]
+        if proto is not None:
+            p.proto = proto
     if kind == "gen":
         return Iter(p)
     if kind == "list":
